@@ -12,6 +12,8 @@ LEAN_MODULES = LEAN_MODULES + ['AsynqModel.Theorems.C07c']
 THEOREMS = THEOREMS + ["AsynqModel.Core." + n for n in ['C07_reads_sequential', 'C07_reads_sequential_at', 'C07_reads_complete', 'C07_read_env', 'C07_block_restores', 'C07_reference_conservative']]
 LEAN_MODULES = LEAN_MODULES + ['AsynqModel.Theorems.NoNA']
 THEOREMS = THEOREMS + ["AsynqModel.Core." + n for n in ['C07_lifo_any', 'C07_lifo_needs_noNonAsync', 'C07_values_any', 'C07_restored_at_top_any', 'C07_all_paused_at_top_any', 'Spec_C07_accepts_any', 'Spec_C07_read_value_any']]
+LEAN_MODULES = LEAN_MODULES + ['AsynqModel.Theorems.C07d']
+THEOREMS = THEOREMS + ["AsynqModel.Core." + n for n in ['C07_read_value_dag', 'C07_read_value_dag_running', 'C07_read_value_dag_run', 'C07_spine_label_chain', 'C07_spine_unique', 'C07_resumed_iff_on_spine', 'C07_read_value_tree', 'Spec_C07_read_value_spine', 'C07_shared_read_depends_on_scheduler', 'C07d_both_await', 'C07d_long_spine', 'C07d_needs_guard', 'C07d_needs_wellscoped']]
 MIX = [('yield_ctx',5),('full',3)]
 RULE = ("grammar-generated task programs (profiles %s; trees and DAGs of tasks, 1-3 batch kinds with priority overrides "
         "and raising flushes, nested yield structures, errors, try/except, synchronous re-entry, contexts) interpreted on "
